@@ -6,7 +6,14 @@ import (
 	"strings"
 )
 
+var extraDumps []func(p *Prog, what string) bool
+
 func debugDump(p *Prog, what string) {
+	for _, d := range extraDumps {
+		if d(p, what) {
+			return
+		}
+	}
 	switch {
 	case what == "codecs":
 		for _, ct := range p.Codecs {
@@ -28,4 +35,30 @@ func debugDump(p *Prog, what string) {
 		}
 		f.WriteTo(os.Stdout)
 	}
+}
+
+func init() {
+	extraDumps = append(extraDumps, func(p *Prog, what string) bool {
+		if !strings.HasPrefix(what, "emit:") {
+			return false
+		}
+		name := strings.TrimPrefix(what, "emit:")
+		for _, ct := range p.Codecs {
+			if name != "all" && ct.Name != name {
+				continue
+			}
+			E := newEmit(p)
+			a := E.methodTerm(ct, "Append")
+			s := E.methodTerm(ct, "Size")
+			fmt.Println("==", ct.Name)
+			fmt.Println("  A   :", a)
+			fmt.Println("  Φ(A):", phi(a))
+			fmt.Println("  S   :", s)
+			fmt.Println("  law :", eq(s, phi(a)))
+			for _, u := range E.undecided {
+				fmt.Println("  undecided:", u)
+			}
+		}
+		return true
+	})
 }
